@@ -14,6 +14,7 @@ import (
 	"path/filepath"
 	"strings"
 	"sync"
+	"sync/atomic"
 	"testing"
 	"time"
 
@@ -122,6 +123,73 @@ func v17Pipeline(x *vexp.X, sc *v17Scenario) (*vhook.Sched, func()) {
 	return s, func() {
 		close(stop)
 		clientMessageChan = v17OrigCMC // drained by TestMain's goroutine
+		if src.numberWrittenTicker != nil {
+			src.numberWrittenTicker.Stop()
+			src.writingState.externalTriggerTicker.Stop()
+			src.writingState.dataDropTicker.Stop()
+		}
+	}
+}
+
+// free-running pipeline: as in a real run, the data blocks arrive at the source's own pace, not the client's (the
+// scripted producer sends its first blocks without being asked), while one client reconfigures the triggers (edge-multi,
+// whose search state the per-channel goroutines update in every block, edge, auto), couples channels, starts and stops
+// writing and asks for status.
+func v17FreeRun(x *vexp.X, sc *v17Scenario) (*vhook.Sched, func()) {
+	const free = 3
+	src := v11New("idle", free)
+	src.pulses = true
+	src.keepPub = true
+	ctl := v11NewControl(src)
+	dir := filepath.Join(os.Getenv("TMPDIR"), "c17")
+	os.RemoveAll(dir)
+	os.MkdirAll(dir, 0755)
+	stop := make(chan struct{})
+	status := make(chan ClientUpdate, 64)
+	ctl.clientUpdates = status
+	ctl.mapServer.clientUpdates = status
+	if v17OrigCMC == nil {
+		v17OrigCMC = clientMessageChan
+	}
+	clientMessageChan = status
+	PubRecordsChan = make(chan []*DataRecord, 64)
+	PubSummariesChan = make(chan []*DataRecord, 64)
+	go v17StatusConsumer(status, stop)
+	go v17RecordConsumer(PubRecordsChan, false, stop)
+	go v17RecordConsumer(PubSummariesChan, true, stop)
+	emt := func(contaminated bool) *FullTriggerState {
+		return &FullTriggerState{ChannelIndices: []int{0}, TriggerState: TriggerState{EdgeMulti: true,
+			EMTBackwardCompatibleRPCFields: EMTBackwardCompatibleRPCFields{EdgeMultiMakeContaminatedRecords: contaminated,
+				EdgeMultiDisableZeroThreshold: true, EdgeMultiLevel: 100, EdgeMultiVerifyNMonotone: 1}}}
+	}
+	client := func() {
+		if err := v11Start(ctl, src); err != nil {
+			panic("harness: Start failed: " + err.Error())
+		}
+		var ok bool
+		if err := ctl.ConfigureTriggers(emt(false), &ok); err != nil {
+			panic("harness: ConfigureTriggers(edge-multi) failed: " + err.Error())
+		}
+		ctl.ConfigureTriggers(&FullTriggerState{ChannelIndices: []int{1}, TriggerState: TriggerState{AutoTrigger: true, AutoDelay: 10 * time.Millisecond}}, &ok)
+		ctl.AddGroupTriggerCoupling(GroupTriggerState{Connections: map[int][]int{0: {1}}}, &ok)
+		ctl.WriteControl(&WriteControlConfig{Request: "START", Path: dir, WriteLJH22: true}, &ok)
+		zero, comment := 0, ""
+		ctl.ReadComment(&zero, &comment)
+		ctl.ConfigureTriggers(emt(true), &ok)
+		d := ""
+		ctl.SendAllStatus(&d, &ok)
+		ctl.ConfigureTriggers(&FullTriggerState{ChannelIndices: []int{0}, TriggerState: TriggerState{EdgeTrigger: true, EdgeRising: true, EdgeLevel: 100}}, &ok)
+		for i := 0; i < free; i++ {
+			<-src.doneCh // every free-running block has been processed
+		}
+		ctl.WriteControl(&WriteControlConfig{Request: "STOP"}, &ok)
+		ctl.Stop(&d, &ok)
+	}
+	s := vhook.Run(x, vhook.Options{MaxSteps: 1500, Names: []string{"client"}, DelayBound: true}, client)
+	return s, func() {
+		close(stop)
+		clientMessageChan = v17OrigCMC
+		v17Work = fmt.Sprintf("blocks=%d", atomic.LoadInt32(&src.processed))
 		if src.numberWrittenTicker != nil {
 			src.numberWrittenTicker.Stop()
 			src.writingState.externalTriggerTicker.Stop()
@@ -471,9 +539,10 @@ func TestVerifC17(t *testing.T) {
 	if r.Thorough() {
 		pb = 2
 	}
-	r.SetBound(fmt.Sprintf("race-detector build; all interleavings (all select alternatives) with at most %d preemptions (life cycle) / at most as many scheduling deviations of any kind (thread choice or select alternative) from the canonical schedule (delay bounding, pipeline) of: (pipeline) one client issuing record-length, trigger, group-trigger, write-control, raw-block, comment (write and read), state-label, send-all and stop requests against a running two-channel source with pulses, LJH2.2+LJH3 writing, group trigger, record/summary/status consumers; (life cycle) Start with two concurrent Stop callers; (Abaco pipeline) real Start/readerMainLoop/getNextBlock/distributeData/CoreLoop with a scripted packet producer (two groups, one lagging, one lost packet, external-trigger packets in between), clock thread and Stop; (Lancero pipeline) real StartRun/launchLanceroReader/getNextBlock/ConfigureMixFraction/distributeData/CoreLoop with a scripted card (2x2 geometry, 20 frames in 5 reads, external-trigger bits, one lost word so that the reader re-aligns), clock thread, one mix request and Stop", pb))
+	r.SetBound(fmt.Sprintf("race-detector build; all interleavings (all select alternatives) with at most %d preemptions (life cycle) / at most as many scheduling deviations of any kind (thread choice or select alternative) from the canonical schedule (delay bounding, pipeline) of: (pipeline) one client issuing record-length, trigger, group-trigger, write-control, raw-block, comment (write and read), state-label, send-all and stop requests against a running two-channel source with pulses, LJH2.2+LJH3 writing, group trigger, record/summary/status consumers; (free-running pipeline) the same source sending three blocks at its own pace while the client configures edge-multi / auto / edge triggers, couples channels, starts and stops LJH2.2 writing, reads the comment and asks for all status; (life cycle) Start with two concurrent Stop callers; (Abaco pipeline) real Start/readerMainLoop/getNextBlock/distributeData/CoreLoop with a scripted packet producer (two groups, one lagging, one lost packet, external-trigger packets in between), clock thread and Stop; (Lancero pipeline) real StartRun/launchLanceroReader/getNextBlock/ConfigureMixFraction/distributeData/CoreLoop with a scripted card (2x2 geometry, 20 frames in 5 reads, external-trigger bits, one lost word so that the reader re-aligns), clock thread, one mix request and Stop", pb))
 	scs := []*v17Scenario{
 		{name: "pipeline", run: v17Pipeline, bound: pb}, // delay-bounded (see vhook.Options.DelayBound)
+		{name: "pipeline-freerun", run: v17FreeRun, bound: pb},
 		{name: "lifecycle", run: v17LifeCycle, bound: pb},
 		{name: "abaco-pipeline", run: v17AbacoPipeline, bound: pb},
 		{name: "lancero-pipeline", run: v17LanceroPipeline, bound: pb},
